@@ -128,12 +128,19 @@ def write_replay(prop, obj):
     with open(p, 'w') as f: json.dump(obj, f, indent=1)
     return p
 
+# the families whose oracles are written from the statement of a property: always among those consulted for that property
+PROP_FAMILIES = {'C01': ['sel'], 'C02': ['order', 'hist'], 'C03': ['order', 'hist'], 'C04': ['queue'], 'C05': ['defer'], 'C06': ['sel'], 'C07': ['sel', 'hist'],
+                 'C08': ['hist'], 'C09': ['hist', 'sel'], 'C10': ['queue', 'defer'], 'C11': ['block'], 'C12': ['exc'], 'C13': ['sel', 'order'], 'C14': ['fronts', 'euml'],
+                 'C15': ['copy'], 'C16': ['ser'], 'C17': ['block'], 'C18': ['kleene'], 'C19': ['order'], 'C20': ['poly', 'queue']}
+def families_for(prop, units):
+    return sorted(set(f for u in units for f in u.replay) | set(PROP_FAMILIES.get(prop, [])))
+
 def witness_for(prop, v, wd, seed):
     """v: violation dict from evidence.classify. Tries the unit's replay families on the real code."""
     import units as units_pkg
     fams = []
     for u in units_pkg.all_units():
-        if u.name == v['unit']: fams = u.replay
+        if u.name == v['unit']: fams = families_for(prop, [u])
     obj = dict(kind='obligation', property=prop, obligation=v['obligation'], unit=v['unit'], cbmc_check=v['check'],
                clause_at='%s:%s' % (v['file'], v['line']), description=v['desc'], counterexample=v['trace'][-60:],
                extracted_unit=None, native=None)
